@@ -12,7 +12,8 @@ ExpOf(e) ==
     CASE e.k = "appendidx" ->
             [pos   |-> Count(e.in.n),
              nnew  |-> TrailingOnes(e.in.n) + 1,
-             count |-> Count(e.in.n + 1)]
+             count |-> Count(e.in.n + 1),
+             hashok |-> TRUE]       \* each new hash is the RFC 6962 hash of the subtree of 2^level records ending here
       [] e.k = "treeidx" ->
             [matchesRef |-> TRUE]
       [] e.k = "coord" ->
